@@ -42,8 +42,8 @@ func refVersionValidAt(v secrets.Version, t time.Time) bool {
 	return !t.Before(v.ValidFrom) && (v.ValidUntil.IsZero() || t.Before(v.ValidUntil))
 }
 
-// verif:harness props=C08,C17 tier=quick native=yes weight=120 shards=8 tshards=14
-// verif:bounds signature header 0, 2 or 64 symbolic bytes; timestamp header 0..2 symbolic bytes (thorough 0..3); nonce 0..1 bytes; path 2 symbolic bytes; body 1 symbolic byte; method POST; arbitrary clock; static secret, or 2 rotating secret versions with arbitrary validity windows; SHA-256/HMAC uninterpreted (functional consistency only)
+// verif:harness props=C08,C17 tier=quick native=yes weight=560
+// verif:bounds signature header 0 or 64 symbolic bytes (thorough also 2); timestamp header 0 or 2 symbolic bytes (thorough 0..3); nonce 0..1 bytes; path 2 symbolic bytes; body 1 symbolic byte; method POST; arbitrary clock; static secret, or 2 rotating secret versions with arbitrary validity windows; SHA-256/HMAC uninterpreted (functional consistency only)
 func VerifC08HMACSound() {
 	now := vrt.Time("now")
 	var a *HMACAuth
@@ -57,12 +57,12 @@ func VerifC08HMACSound() {
 		a = NewHMACAuth([][]byte{keys[0]})
 	}
 	a.Now = func() time.Time { return now }
-	tsMax := 2
+	sigLens, tsLens := []int{0, 64}, []int{0, 2}
 	if vrt.Thorough() {
-		tsMax = 3
+		sigLens, tsLens = []int{0, 2, 64}, []int{0, 1, 2, 3}
 	}
-	sig := vrt.StringN("sig", []int{0, 2, 64}[vrt.Choose("siglen", 3)])
-	ts := vrt.StringN("ts", vrt.Choose("tslen", tsMax+1))
+	sig := vrt.StringN("sig", sigLens[vrt.Choose("siglen", len(sigLens))])
+	ts := vrt.StringN("ts", tsLens[vrt.Choose("tslen", len(tsLens))])
 	nonce := vrt.StringN("nonce", vrt.Choose("noncelen", 2))
 	vrt.Assume(hTrimmed(sig) && hTrimmed(ts) && hTrimmed(nonce))
 	h := http.Header{"X-Signature": []string{sig}, "X-Timestamp": []string{ts}, "X-Nonce": []string{nonce}}
@@ -111,7 +111,7 @@ func VerifC08HMACSound() {
 	vrt.Assert("C08.hmac.signature-equals-hmac-under-a-secret-valid-at-signed-time", match)
 }
 
-// verif:harness props=C08,C17 tier=quick weight=40 shards=4 tshards=8
+// verif:harness props=C08,C17 tier=quick weight=40
 // verif:bounds a correctly signed request (timestamp 1700000000, path 2 symbolic bytes, body 1 symbolic byte, fresh nonce) under each of 2 rotating secret versions with arbitrary windows; arbitrary clock
 func VerifC08HMACComplete() {
 	now := vrt.Time("now")
@@ -146,7 +146,7 @@ func VerifC08HMACComplete() {
 	}
 }
 
-// verif:harness props=C08 tier=quick native=yes weight=30 shards=4 tshards=8
+// verif:harness props=C08 tier=quick native=yes weight=30
 // verif:bounds one configured user "u1" with password "pw1"; Authorization: "Basic " + base64(user ":" pass) with user <= 2 and pass <= 3 symbolic bytes (every byte value except ':' in the user), or header absent, or another scheme
 func VerifC08Basic() {
 	a := NewBasicAuth(map[string]string{"u1": "pw1"})
